@@ -353,6 +353,7 @@ def _terminal_ok(ctx, p, fn, ob, cont, idx, gqs):
         lt = fn.local_terms(li, (ob, 0))
         if any(m[0] == 'agg' and m[2] == 'Some' for m in lt) and fn._payload(lt, 'Some', 0) == idx:
             cands.append((idx, lt))
+    cands.append((idx, None))          # the index itself is tested: `if goals.contains(&cur) { return Ok(extract(cur)) }`
     for (cur, inner0) in cands:
         n = ('unwrap', inner0)
         for sb in range(fn.nb):
@@ -372,6 +373,10 @@ def _terminal_ok(ctx, p, fn, ob, cont, idx, gqs):
                     want = P.norm_state(ctx, p, fn, P.node_state_term(cont, x, sf))
                     if not any(q['fn'] is fn and P.norm_state(ctx, p, fn, q['state']) == want and P.guarded(fn, pb, q['true_edges']) for q in gqs):
                         allq = False
+                if inner0 is None:
+                    if allq and P.guarded(fn, ob, {(sb, other)}):
+                        return True, ''
+                    continue
                 # the Some(cur) definition that reaches the extractor is on the true edge of the membership test
                 some_blocks = []
                 inner = n[1]
